@@ -49,6 +49,12 @@ static void cstl_vector_set_capacity(
      * element at the end to use as scratch space for exchanging
      * elements during sort and reverse operations
      */
+    if (sz == SIZE_MAX
+        || (v->elem.size > 0 && sz + 1 > SIZE_MAX / v->elem.size)) {
+        /* the number of bytes can't be represented; fail quietly */
+        return;
+    }
+
     e = realloc(v->elem.base, (sz + 1) * v->elem.size);
     if (e != NULL) {
         v->elem.base = e;
